@@ -82,15 +82,23 @@ func genC03(g *Gen) {
 	g.setMode(0)
 	for !g.w.full() {
 		var x, y d128.Decimal
-		switch g.r.Intn(12) {
+		k := 2
+		switch g.r.Intn(16) {
 		case 0:
 			x, y = randAny(g.r), randAny(g.r)
 		case 1:
 			x, y = randFinite(g.r), randFinite(g.r)
+		case 2, 3, 4, 5, 6:
+			x, y = g.quoRemStructured()
+			k = 6
 		default:
 			x, y = g.quoRemPair()
 		}
-		g.someModes("QuoRem", x, y, 2)
+		if k == 6 {
+			g.allModes("QuoRem", x, y)
+		} else {
+			g.someModes("QuoRem", x, y, 2)
+		}
 	}
 }
 
